@@ -265,6 +265,10 @@ impl Server {
     pub fn handle_document_formatting(&self, params: DocumentFormattingParams) -> Vec<TextEdit> {
         let key = params.text_document.uri.to_key(&self.base_path);
 
+        if self.database.graph().maybe_key(&key).is_none() {
+            return vec![];
+        }
+
         let mut patch = self.database.graph().new_patch();
         patch
             .build_key(&key)
